@@ -17,6 +17,14 @@ func (fv *FnVerifier) inlineClosure(mc *ssa.MakeClosure, c *ssa.CallCommon, st *
 	if !ok || len(fn.Blocks) == 0 {
 		return Val{}, false
 	}
+	return fv.inlineFn(fn, fv.value(mc, st).Binds, c, st, pos)
+}
+
+// inlineFn inlines an anonymous function (with the given captured values) at a call.
+func (fv *FnVerifier) inlineFn(fn *ssa.Function, binds []Val, c *ssa.CallCommon, st *State, pos token.Pos) (Val, bool) {
+	if len(fn.Blocks) == 0 {
+		return Val{}, false
+	}
 	var body *ssa.BasicBlock
 	for _, b := range fn.Blocks {
 		if b == fn.Blocks[0] {
@@ -28,12 +36,11 @@ func (fv *FnVerifier) inlineClosure(mc *ssa.MakeClosure, c *ssa.CallCommon, st *
 		}
 		return Val{}, false // branching closure bodies are not inlined
 	}
-	clo := fv.value(mc, st)
-	if len(clo.Binds) != len(fn.FreeVars) {
+	if len(binds) != len(fn.FreeVars) {
 		return Val{}, false
 	}
 	for i, fvv := range fn.FreeVars {
-		fv.env[fvv] = clo.Binds[i]
+		fv.env[fvv] = binds[i]
 	}
 	for i, p := range fn.Params {
 		if i < len(c.Args) {
